@@ -57,6 +57,7 @@ Definition token_eqb (a b : token) : bool :=
   | TFlag x, TFlag y => Bool.eqb x y
   | TCol d, TCol e => col_eqb d e
   | TVal v, TVal w => cell_eqb v w
+  | TBulk d, TBulk e => col_eqb d e
   | TCrc x, TCrc y => N.eqb x y
   | _, _ => false
   end.
